@@ -686,7 +686,20 @@ impl<Front: SocketHandler> ConnectionH1<Front> {
                     if let StreamState::Linked(token) = old_state {
                         remove_backend_stream(&mut context.backend_streams, token, stream_id);
                     }
-                    if stream.context.keep_alive_frontend {
+                    // A response that was delimited by the close of the backend
+                    // connection (neither Content-Length nor chunked; the statuses that
+                    // never carry a body are `Length(0)` or excluded here) was relayed
+                    // without framing: on HTTP/1 only closing the connection ends it
+                    // (RFC 9112 §6.3). Kept alive, the client would wait for the end of
+                    // the body until the next timeout and then read the 408 answer as
+                    // part of it.
+                    let close_delimited = stream.back.body_size == kawa::BodySize::Empty
+                        && !matches!(
+                            stream.back.detached.status_line,
+                            kawa::StatusLine::Response { code, .. }
+                                if (100..200).contains(&code) || code == 204 || code == 304
+                        );
+                    if stream.context.keep_alive_frontend && !close_delimited {
                         self.timeout_container.reset();
                         if let StreamState::Linked(token) = old_state {
                             endpoint.end_stream(token, stream_id, context);
